@@ -664,7 +664,10 @@ class Array(metaclass=MetaArray):
             # the items may have moved: refresh what this handle cached
             self._offsets = info.offsets
         if self.__class__._size is None:
-            self._size = info.size  # as written in the size header
+            # the array keeps the extent reserved for it: a value needing
+            # less leaves slack, as a shorter string does in its slot
+            Int64._to_buffer(self._buffer, self._offset, len(saved))
+            self._size = len(saved)
 
     def _get_offset(self, index):
         if isinstance(index, (int, np.integer)):
